@@ -27,8 +27,8 @@ META = {
              "configuration (grid >= 1, box >= max(4, grid), cores 1-16, stripes None/1..2*cores, mask on/off, file output "
              "plain/compressed) and runs the real filter_image inside the simulator under independently drawn random "
              "worker schedules: the base image, the image plus a dyadic constant, and the image times +-2^j.  All "
-             "single-map clauses are checked on every map; shift and scale relations between the runs.  A case is "
-             "non-trivial when >= 2 tasks were interleaved; distinct = new hash of (context-switch sequence, configuration)."),
+             "single-map clauses are checked on every map; shift and scale relations between the runs.  A run (= one evaluation) is "
+             "non-trivial when the parent and at least two worker tasks were interleaved; distinct = new hash of (context-switch sequence, configuration)."),
     "assumptions": [
         "as for C07: the Pool/Condition/shm models of simkit/mp.py represent CPython 3.12 multiprocessing",
         "image values lie on a dyadic grid so that adding a dyadic constant and multiplying by a power of two are exact in the file's dtype (checked per case; relations whose inputs are not exact are skipped and counted)",
